@@ -40,7 +40,7 @@ Definition wkind_eqb a b := match a, b with WErr, WErr | WTimeout, WTimeout => t
 Definition act_eqb a b := match a, b with
   | Send x o, Send y p => zlist_eqb x y && Bool.eqb o p
   | SetHandler j, SetHandler k => Nat.eqb j k
-  | LocalClose, LocalClose | StartAgain, StartAgain | PeerClose, PeerClose | PeerRead, PeerRead | PeerByte, PeerByte
+  | LocalClose, LocalClose | StartAgain, StartAgain | PeerClose, PeerClose | PeerRead, PeerRead | PeerByte, PeerByte | PeerPause, PeerPause | Pick, Pick
   | SendStep, SendStep | SendLost, SendLost | RecvEnd, RecvEnd => true
   | RecvFault j, RecvFault k => rkind_eqb j k
   | WriteFault j, WriteFault k => wkind_eqb j k
@@ -152,6 +152,7 @@ Definition hist_act (h : hist) (a : act) : hist :=
   | LocalClose => mkH (h_reads h) (h_acc h) (h_clean h) true (h_rterm h) (h_wfault h) (h_wsend h) (h_cur h) (h_amb h)
   | PeerClose | RecvFault _ => mkH (h_reads h) (h_acc h) false (h_lclosed h) true (h_wfault h) (h_wsend h) (h_cur h) (h_amb h)
   | PeerRead => mkH true (h_acc h) (h_clean h) (h_lclosed h) (h_rterm h) (h_wfault h) (h_wsend h) (h_cur h) (h_amb h)
+  | PeerPause => mkH false (h_acc h) (h_clean h) (h_lclosed h) (h_rterm h) (h_wfault h) (h_wsend h) (h_cur h) (h_amb h)
   | WriteFault _ => mkH (h_reads h) (h_acc h) false (h_lclosed h) (h_rterm h) true (h_wsend h) (h_cur h) (h_amb h)
   | SetHandler k => mkH (h_reads h) (h_acc h) (h_clean h) (h_lclosed h) (h_rterm h) (h_wfault h) (h_wsend h) k
                         (h_amb h || h_rterm h || h_lclosed h || h_wfault h)
@@ -243,6 +244,7 @@ Proof.
   - destruct po; [|discriminate]. inversion H; subst; reflexivity.
   - destruct (po && negb pr); [|discriminate]. inversion H; subst; reflexivity.
   - destruct po; [|discriminate]. destruct (rl && negb rc && co); inversion H; subst; reflexivity.
+  - destruct (po && pr); [|discriminate]. inversion H; subst; reflexivity.
   - destruct (match k with RErr | RTimeout => true | _ => po end); [|discriminate]. inversion H; subst; reflexivity.
   - inversion H; subst; reflexivity.
   - destruct sl; cbn in H; [|discriminate]. destruct q0 as [|x r].
